@@ -262,6 +262,9 @@ func (ex *Exec) selectStep(st *State, in *ssa.Select) bool {
 			nposs++
 		}
 	}
+	if ex.sched != nil {
+		ex.sched.lastSelect = -1
+	}
 	if nposs <= 1 {
 		copy(chosen, ready)
 	} else {
@@ -280,6 +283,13 @@ func (ex *Exec) selectStep(st *State, in *ssa.Select) bool {
 				ch = tb.Or(ch, t)
 			}
 			chosen[i] = ch
+		}
+	}
+	if ex.sched != nil && ex.Fixed != nil && nposs > 1 {
+		for i := range chosen {
+			if chosen[i].IsTrue() {
+				ex.sched.lastSelect = i
+			}
 		}
 	}
 	// effects
